@@ -1265,22 +1265,24 @@ class DeterministicOde(BaseOdeModel):
         # Jacobian of the gradient
         GJ = self.grad_jacobian(state, t)
         # and now we add the gradient
-        sensJacobianOfState = GJ + self.sens_jacobian_state(state_param, t)
-
         if by_state:
-            arrangeVector = np.zeros(self.num_state * self.num_param)
-            k = 0
-            for j in range(0, self.num_param):
-                for i in range(0, self.num_state):
-                    if i == 0:
-                        arrangeVector[k] = (i*self.num_state) + j
-                    else:
-                        arrangeVector[k] = (i*(self.num_state - 1)) + j
-                    k += 1
-
-            outJ = outJ[np.array(arrangeVector,int),:]
-            idx = np.array(arrangeVector, int)
+            # Element i*p + k of the sensitivities belongs to state i and
+            # parameter k when arranged by state, while the blocks built here
+            # are arranged by parameter (element i + k*n).  Read the input in
+            # its own arrangement, then reorder the rows and the columns that
+            # belong to the sensitivities.
+            nS = self.num_state
+            nP = self.num_param
+            sens = np.reshape(np.reshape(state_param[nS::], (nS, nP)),
+                              nS*nP, order='F')
+            sensJacobianOfState = GJ + self.eval_sens_jacobian_state(time=t,
+                                                                     state=state,
+                                                                     sens=sens)
+            idx = np.array([(q // nP) + (q % nP)*nS for q in range(nS*nP)], int)
+            outJ = outJ[idx,:][:,idx]
             sensJacobianOfState = sensJacobianOfState[idx,:]
+        else:
+            sensJacobianOfState = GJ + self.sens_jacobian_state(state_param, t)
         # The Jacobian of the ode, then the sensitivities w.r.t state and
         # the sensitivities. In block form.  Theoretically, only the diagonal
         # blocks are important but we output the full matrix for completeness
